@@ -22,6 +22,9 @@ CLAIMED = {
  "C16": ("value-flow of the live-config path into destructive argument positions, dominance, control-dependence and key-set agreement (static)",
          "Structural clauses decided: the live config path is never the old-path of a rename, removed, created/truncated or written directly, only atomically replaced by a rename whose source is the completely written, error-checked temporary file (so every kill point leaves a complete old or new file); in the updater loop remembering a message depends only on it having changed and on constant tags, and the replay arm ranges over the whole cache; every restored key is a published, persisted tag and saveState skips only the no-save list; restore loops do not alias a shared range variable. Not decided: YAML value round trip, fsync durability, SUB delivery.",
          "POSIX rename atomicity / link semantics; RunClientUpdater, publish, nosaveMessages, ClientUpdate are name-keyed anchors", "DESIGN.md §2 C16"),
+ "C01": ("polynomial value congruence on SSA (GVN-style normal forms), dominance and value-flow ordering rules (static)",
+         "Structural clauses decided for every execution: each DataRecord is a fresh slice filled by one copy from the processor's own stream whose window length equals the record length, with presamples = trigger index - window start, trigger frame = stream first frame + that index, trigger time = TimeOf(that index) and channel identity from the same processor; append/trim keep first-frame and first-time congruent with the retained samples; TimeOf formula; pipeline order and fork-join order of the block fan-out; only DataStream methods write stream bookkeeping. Not decided: sufficiency of retained history (C02), bit-identity over all block partitions, index safety, trigger search arithmetic.",
+         "field names rawData/firstFrameIndex/firstTime/framesPerSample/framePeriod and the DataRecord/DataStream types are name-keyed anchors; congruence is modulo commutative-ring axioms with narrowing conversions opaque", "DESIGN.md §2 C01"),
 }
 
 NOT_BUILT_REASON = "static rule designed in DESIGN.md but not built yet; not claimed until it is"
